@@ -52,6 +52,16 @@ def op_library():
     out += [{"op": "gat", "key": TXT, "expire": 0}, {"op": "gats", "key": MISSING, "expire": -1}, {"op": "stats", "args": ["settings"]}]
     out += [{"op": "incr", "key": TXT, "delta": 1}, {"op": "incr", "key": MISSING, "delta": 1},
             {"op": "version"}, {"op": "stats"}, {"op": "cache_memlimit", "memlimit": 64}, {"op": "quit"}, {"op": "shutdown"}]
+    # mixed outcomes inside one call: the server refuses one item of a batch and stores the others
+    for nr in (None, False):
+        for vals in ({TXT: b"1", "toolarge": b"22", "c": b"3"}, {"a": b"1", "nostore": b"2", "c": b"3"}, {"oom": b"1", "b": b"2"}, {"a": b"1", "b": b"2", "toolarge": b"3"},
+                     {"toolarge": b"1", "oom": b"2", "nostore": b"3", "d": b"4"}):
+            r = {"op": "set_many", "values": vals}
+            if nr is not None:
+                r["noreply"] = nr
+            out.append(r)
+    out += [{"op": "set", "key": "toolarge", "value": b"v", "noreply": False}, {"op": "add", "key": "nostore", "value": b"v", "noreply": False},
+            {"op": "set", "key": "oom", "value": b"v", "noreply": False}, {"op": "set", "key": "toolarge", "value": b"v", "noreply": True}]
     # raw_command: arbitrary commands, storage commands with their data block included (the block may end in CR LF itself)
     out += [{"op": "raw_command", "command": b"version"}, {"op": "raw_command", "command": "delete t"},
             {"op": "raw_command", "command": b"get t n", "end": b"END\r\n"}, {"op": "raw_command", "command": b"set rk 0 0 3\r\nabc"},
@@ -70,6 +80,9 @@ def preload(srv, prefix=b""):
     srv.store[prefix + b"n"] = Item(b"10", 0, 0, srv._next_cas(), now)
     srv.store[prefix + b"t"] = Item(b"text", 0, 0, srv._next_cas(), now)
     srv.store[prefix + b"x4"] = Item(b"y" * 5000, 0, 0, srv._next_cas(), now)
+    # stores of these keys are refused by the server (its item limit is lower than the client's idea of it / memory is
+    # exhausted / a proxy could not complete the store)
+    srv.refuse.update({prefix + b"toolarge": "too-large", prefix + b"oom": "oom", prefix + b"nostore": "not-stored"})
 
 
 # ---- fault catalogue ----------------------------------------------------------------
